@@ -350,11 +350,49 @@ def gen_xmit(rng, n):
     return L
 
 
+def gen_rtag(rng, n):
+    """Block1 receive path with Request-Tag absent / EMPTY (length 0) / 1..8 bytes: one transfer, and two interleaved
+    transfers to the same resource that only the Request-Tag tells apart (real coap_handle_request_put_block)"""
+    L = []
+    for _ in range(n):
+        szx = rng.randrange(3)
+        c = 1 << (szx + 4)
+        lens = [rng.choice([rng.randrange(c + 1, 7 * c), rng.randrange(2, 6) * c, rng.randrange(2, 6) * c + 1]) for _ in (0, 1)]
+        seeds = rng.sample(range(256), 2)
+        two = rng.random() < 0.6
+        r0 = rng.choice([0, 1, 1, 1, rng.randrange(2, 18)])
+        r1 = rng.choice([x for x in [0, 1, 1, rng.randrange(2, 18), rng.randrange(2, 18)] if x != r0] or [2 if r0 != 2 else 3])
+        if rng.random() < 0.08:
+            r1 = r0                                    # same key: the sender's fault, only M-vs-I is compared
+        seqs = []
+        for t, r in ((0, r0), (1, r1)):
+            nb = (lens[t] + c - 1) // c
+            order = list(range(nb))
+            x = rng.random()
+            if x < 0.2:
+                rng.shuffle(order)
+            elif x < 0.3:
+                order.insert(rng.randrange(len(order) + 1), rng.randrange(nb))
+            elif x < 0.35 and len(order) > 1:
+                del order[rng.randrange(len(order))]
+            seqs.append(["%d.%d.%d.%d.%d" % (t, k, 1 if (k + 1) * c < lens[t] else 0, szx, r) for k in order])
+        if not two:
+            items = seqs[0]
+        else:
+            items = []
+            a, b = list(seqs[0]), list(seqs[1])
+            while a or b:
+                src = a if (a and (not b or rng.random() < 0.5)) else b
+                items.append(src.pop(0))
+        L.append("srcv3 %d %d %d %d %d %d %s" % (rng.choice([0, 0, szx]), lens[0], seeds[0], lens[1], seeds[1], rng.randrange(2), ",".join(items)))
+    return L
+
+
 def generate(ctx, escalate=False):
     n = 3000 if ctx.thorough() else 400
     if escalate:
         n *= 3
-    return gen_layer_a(ctx, n) + gen_crcv(ctx.rng, n * 2) + gen_xmit(ctx.rng, n) + gen_layer_b(ctx, n * 3)
+    return gen_layer_a(ctx, n) + gen_crcv(ctx.rng, n * 2) + gen_xmit(ctx.rng, n) + gen_rtag(ctx.rng, n) + gen_layer_b(ctx, n * 3)
 
 
 # --------------------------------------------------------------------------
@@ -537,6 +575,36 @@ def spec_layer_a(ctx, c):
                 return "block message %s does not carry the slice of the body for its NUM/SZX" % o
             if not larger and m_ != (1 if (num + 1) * cs < ln else 0):
                 return "block message %s has the wrong More bit for a %d-byte body" % (o, ln)
+    elif op == "srcv3":
+        lens, seeds = [int(w[2]), int(w[4])], [int(w[3]), int(w[5])]
+        bodies = [mk_body(l, sd) for l, sd in zip(lens, seeds)]
+        its = [tuple(map(int, x.split("."))) for x in w[7].split(",")]
+        keys = [sorted({x[4] for x in its if x[0] == t}) for t in (0, 1)]
+        # the two transfers are told apart by their Request-Tag (absent, EMPTY and every value are different keys)
+        if all(len(k) <= 1 for k in keys) and (not keys[0] or not keys[1] or keys[0] != keys[1]):
+            delivered = [0, 0]
+            for o in i.split(","):
+                if not o.startswith("d"):
+                    continue
+                f = o[1:].split("/")[0].split(":")
+                hit = [t for t in (0, 1) if f[0] == "0" and int(f[1]) == lens[t] and f[3] == fnv(bodies[t])]
+                if not hit:
+                    return "the handler was given %s, which is neither sender's body (%d bytes %s / %d bytes %s)" % (
+                        o, lens[0], fnv(bodies[0]), lens[1], fnv(bodies[1]))
+                delivered[hit[0]] += 1
+            for t in (0, 1):
+                mine = [x for x in its if x[0] == t]
+                if not mine:
+                    continue
+                c_ = 1 << (mine[0][3] + 4)
+                nb = (lens[t] + c_ - 1) // c_
+                # every block of the body arrived exactly once (any order): it must have been delivered exactly once
+                if sorted(x[1] for x in mine) == list(range(nb)) and all(x[3] == mine[0][3] for x in mine) and nb > 1 \
+                        and not (len(w) > 1 and int(w[1]) and int(w[1]) < mine[0][3]):
+                    if [x[1] for x in mine] == list(range(nb)) and delivered[t] != 1:
+                        return "transfer %d (Request-Tag code %d): every block arrived once, in order, yet %d deliveries" % (t, mine[0][4], delivered[t])
+                    if delivered[t] > 1:
+                        return "transfer %d delivered %d times" % (t, delivered[t])
     elif op == "srcv":
         szx, ln, seed = int(w[1]), int(w[2]), int(w[3])
         body = mk_body(ln, seed)
@@ -572,6 +640,12 @@ def judge(ctx, c):
         # short payloads / mixed block sizes leave never-written (malloc'd) bytes in the buffer: compare shapes only
         ii = re.sub(r":[0-9a-f]{8}", ":*", ii)
         m = re.sub(r":[0-9a-f]{8}", ":*", m or "")
+    if c["input"].startswith("srcv3"):
+        its = [x.split(".") for x in c["input"].split()[7].split(",")]
+        if {x[4] for x in its if x[0] == "0"} & {x[4] for x in its if x[0] == "1"}:
+            # both senders use the same Request-Tag: their blocks share one lg_srcv, short last blocks leave never-written bytes
+            ii = re.sub(r":[0-9a-f]{8}", ":*", ii)
+            m = re.sub(r":[0-9a-f]{8}", ":*", m or "")
     if ii != m:
         return ("tie", "implementation `%s` but model M says `%s`" % (short(ii), short(m)))
     return None
@@ -579,7 +653,7 @@ def judge(ctx, c):
 
 def parse_xfer(line):
     w = line.split()
-    d = {"dir": w[1], "len": [int(w[2])], "seed": [int(w[3])], "cszx": None if w[4] == "-" else int(w[4]),
+    d = {"dir": "put" if w[1] in ("pute", "putt", "puts") else w[1], "dir0": w[1], "len": [int(w[2])], "seed": [int(w[3])], "cszx": None if w[4] == "-" else int(w[4]),
          "sszx": None if w[5] == "-" else int(w[5]), "mtu": int(w[6]), "con": int(w[7]), "single": int(w[8]), "sched": w[9]}
     if len(w) == 12:
         d["len"].append(int(w[10])); d["seed"].append(int(w[11]))
@@ -637,6 +711,12 @@ def judge_xfer(ctx, c):
             nacks[int(f[1][3]) - 1] += 1
         elif f[0] == "relcount":
             rel = [int(f[1]), int(f[2])]
+    if x["dir0"] == "puts" and ntr == 2:
+        # both transfers go to the same resource: a delivery is attributed to the body it equals
+        for dlv in list(deliveries[0]):
+            if (dlv[2], dlv[3]) == (x["len"][1], fnv(bodies[1])) and (dlv[2], dlv[3]) != (x["len"][0], fnv(bodies[0])):
+                deliveries[0].remove(dlv)
+                deliveries[1].append(dlv)
     nreq = [sum(1 for t in toks if t.startswith("req:%d:" % (k + 1))) for k in range(ntr)]
     exhausted = any(n >= 5 for n in con_tx.values())     # 1 + MAX_RETRANSMIT transmissions of one Confirmable message
     for k in range(ntr):
@@ -707,7 +787,7 @@ def gen_layer_b(ctx, n):
             return "-"
         return "".join(rng.choice("dddddx2" if r < 0.8 else "ddx2x") for _ in range(k))
     for _ in range(n):
-        d = rng.choice(["put", "put", "get", "get"])
+        d = rng.choice(["put", "put", "get", "get", "pute", "putt", "pute"])
         cszx = rng.choice([None, None, 0, 1, 2, 3, 4, 5, 6])
         sszx = rng.choice([None, None, None, 0, 1, 2, 3, 4, 5, 6])
         szx = min(v for v in (cszx, sszx, 6) if v is not None)
@@ -729,6 +809,12 @@ def gen_layer_b(ctx, n):
         if rng.random() < 0.15:
             line += " %d %d" % (max(0, min(65536, 600 * ceff, rng.randrange(kmax + 1) * c + rng.choice([-1, 0, 1]))), rng.randrange(256))
             line = line.replace(" %d " % ln, " %d " % min(ln, 600 * ceff), 1) if ln > 600 * ceff else line
+            if d.startswith("put") and single and rng.random() < 0.5:
+                # two concurrent transfers to ONE resource that only the Request-Tag tells apart (EMPTY vs 1 byte)
+                w_ = line.split()
+                if (w_[2], w_[3]) != (w_[10], w_[11]) and int(w_[2]) > 0 and int(w_[10]) > 0:
+                    w_[1] = "puts"
+                    line = " ".join(w_)
         L.append(line)
     # hand-built Block1 transfers WITHOUT Size1 (a peer that is not libcoap), in order and out of order
     for _ in range(n // 4):
@@ -760,7 +846,7 @@ def classify(c):
 
 
 def search(ctx, tie_breaks, proof):
-    return gen_layer_a(ctx, 1500) + gen_crcv(ctx.rng, 3000) + gen_xmit(ctx.rng, 1500)
+    return gen_layer_a(ctx, 1500) + gen_crcv(ctx.rng, 3000) + gen_xmit(ctx.rng, 1500) + gen_rtag(ctx.rng, 1500)
 
 
 def known(ctx, c):
